@@ -38,12 +38,18 @@ Theorem C03_parser_doc_end_step_safe : forall s, pstate_ s = Some PDocEnd -> Inv
 Proof. exact step_doc_end. Qed.
 Eval vm_compute in "ASSUME:C03_parser_doc_end_step_safe"%string. Print Assumptions C03_parser_doc_end_step_safe.
 
-(* KIND C03_escape_total_refuted : F *)
-(* FULL (scanner never crashes) is false of the faithful model: "\UFFFFFFFF" makes chr() raise OverflowError.  Replayed on the
-   implementation this is a finding / fix candidate. *)
-Example C03_escape_total_refuted :
-  snd (scan_all [34; 92; 85; 70; 70; 70; 70; 70; 70; 70; 70; 34]%N) = Scan.Crash Scan.OverflowError.
+(* KIND C03_scanner_total_refuted : F *)
+(* FULL (scanner never crashes) is false of the faithful model: a %YAML directive whose minor number has more than 4300 digits
+   makes int() raise ValueError (CPython's integer string conversion limit).  Replayed on the implementation this is the known
+   finding F-yaml-directive-4300-digits.  (The earlier witness "\UFFFFFFFF" -> chr() OverflowError was repaired in /repo by a
+   fix: commit; the model now returns a ScannerError there, second statement.) *)
+Example C03_scanner_total_refuted :
+  snd (scan_all ([37; 89; 65; 77; 76; 32; 49; 46]%N ++ repeat 49%N (N.to_nat 4301))) = Scan.Crash Scan.ValueError.
 Proof. vm_compute. reflexivity. Qed.
+(* KIND C03_escape_out_of_range_is_scanner_error : F *)
+Example C03_escape_out_of_range_is_scanner_error :
+  match snd (scan_all [34; 92; 85; 70; 70; 70; 70; 70; 70; 70; 70; 34]%N) with Scan.ScanErr _ _ _ => True | _ => False end.
+Proof. vm_compute. exact I. Qed.
 
 (* PARTIAL: scanner_total, parser_total (all 21 states), composer_total and error_marks_inside are not proved.  They are
    decided by the scan/parse/compose/reader correspondence on a malformed-input stream (outcome class incl. the class of any
